@@ -139,7 +139,7 @@ Proof.
       destruct (key_to_pie_back _ _ _ Hwf H) as (C & K & _). unfold pie_to_core. rewrite C, K. reflexivity.
     + case_if H.
       destruct (key_to_pie_back _ _ _ Hwf H) as (C & K & _). unfold pie_to_core. rewrite C, K. reflexivity.
-  - inv_bind H. destruct (key_to_pie_back _ _ _ Hwf E) as (C & K & _). injection H as <-.
+  - inv_bind H. destruct (key_to_pie_back _ _ _ Hwf E) as (C & K & _). case_if H. injection H as <-.
     unfold pie_to_core; simpl. unfold pie_keyblock in *. simpl. destruct (p_fmt a); [|discriminate K].
     destruct (kwd_unflatten (p_kc a)); simpl in *; [|discriminate K]. injection K as <-. destruct sp; reflexivity.
   - case_if H. injection H as <-. reflexivity.
